@@ -11,7 +11,7 @@ VERIF = os.path.dirname(os.path.dirname(os.path.abspath(__file__)))
 
 INTRO = """### 12.6 Seeded changes: which check catches which change
 
-Four rounds. In each, one fresh sub-agent per property was given only the property text and its own scratch worktree
+Five rounds. In each, one fresh sub-agent per property was given only the property text and its own scratch worktree
 (nothing from /verif) and asked for a realistic change that breaks the property, compiles, passes the 137 tests and
 needs something specific to manifest; in round 2 the agent was additionally told which site round 1 had used and to
 find a different mechanism (preferably an interplay of two features: a cache with a second occurrence, an option with
@@ -67,6 +67,15 @@ member (C19). Several of the caught changes were "simplifications" of this sessi
 chain, the rounding of scaled size literals, `lstat` identity of directories, the comma rule after BY): the checks that
 motivated those repairs hold them in place.
 
+Round 5 (same set-up, four used-up sites per property, the agents asked to aim at a part of the statement not attacked
+yet): 20 changes, 14 caught as the checks stood (C01, C02, C03, C05, C06, C07, C08, C09, C10, C12, C13, C14, C15, C18),
+6 missed and caught after strengthening: a CONTAINS needle across a line end (C04), arithmetic signs after BY (C11 - the
+grammar had only plain keys there), the smallest 64-bit integer under ABS (C16), an aggregate over a content column with
+an unreadable file in the middle (C17: the expected value had been computed and never compared - an oracle with a hole),
+a filter together with LIMIT under `archives` (C19; C06 caught it as it stood), two ignore files on one ancestor chain
+(C20). Two of these were plainly holes in what the check compared rather than in what it generated (C17, C16's
+don't-care range); the rest were unexplored corners of the input space.
+
 Re-judging on the tree as repaired (after some ninety `fix:` commits; `python3-vt -m fsv.seedall`, results in
 `sensitivity/seedall-*.json`): 42 of the 60 patches still applied and all but two of them were caught by the
 search-only quick checks; the two that "held" (`C02-v2-shared-operand-map`, `C05-v2-date-before-numeric-key`) are
@@ -82,7 +91,7 @@ again, all caught), and one change - `C20-v3-ignore-test-skipped-above-mindepth`
 its detection had depended on a single lucky draw. A shape a check is meant to catch needs a generator branch of its
 own; C20 has one now, and the change is caught under five seeds.
 
-Over the four rounds: 80 changes, 47 caught by the checks as they stood at the time, 33 missed and all 33 caught after
+Over the five rounds: 100 changes, 61 caught by the checks as they stood at the time, 39 missed and all 39 caught after
 a generator or oracle extension; no check was loosened, and every extension was re-run on the unchanged tree.
 """
 
